@@ -26,8 +26,14 @@ func c02Years(c *ctx) {
 		f := obj{"ev": "C02Year", "y": y}
 		p, _ := try(func() {
 			ly := calendar.NewLunarYear(y)
+			// the accessors first: they report on the table, they must not edit it
+			f["leap"] = ly.GetLeapMonth()
+			f["inyear"] = ly.GetMonthsInYear().Len()
+			ly.GetDayCount()
 			t := moList(ly.GetMonths())
 			f["t"] = t
+			// the head of next year's table: the months both tables contain must be the same months
+			f["tn"] = yearTable(y + 1)[:4]
 			// days (UTC+8) of the 31 terms of the table, and how close each instant is to midnight (seconds)
 			terms := [][]int{}
 			for _, v := range ly.GetJieQiJulianDays() {
